@@ -253,6 +253,9 @@ def worker(lines):
 
 
 def replay(case):
+    if case.get('kind') == 'custom_spec':
+        v = check_custom_spec()
+        return v and '%s: %s' % v[0]
     row = case.get('row')
     if row is None:
         return 'replay needs the full row (payload too long to store); rerun the check'
@@ -331,6 +334,64 @@ def record_random(rng, n):
         recs.append(rec)
         cases.append({'row': ['A', t, v, []]})
     return recs, cases
+
+
+def check_custom_spec():
+    """The documented extension point (docs/meta_message_types.rst): a meta type
+    registered with add_meta_spec encodes to FF <type> <len> <payload> and decodes
+    back to an equal message - from bytes and from a track."""
+    import mido
+    from mido.midifiles.meta import MetaSpec, add_meta_spec
+    from .. import smf
+
+    class MetaSpec_vf_light(MetaSpec):
+        type_byte = 0x70
+        attributes = ['r', 'g', 'b']
+        defaults = [0, 0, 0]
+
+        def decode(self, message, data):
+            (message.r, message.g, message.b) = data
+
+        def encode(self, message):
+            return [message.r, message.g, message.b]
+
+        def check(self, name, value):
+            if not isinstance(value, int):
+                raise TypeError('%s must be an integer' % name)
+            if not 0 <= value <= 255:
+                raise ValueError('%s must be in range 0..255' % name)
+    out = []
+    try:
+        add_meta_spec(MetaSpec_vf_light)
+        m = mido.MetaMessage('vf_light', r=120, g=60, b=255, time=3)
+        if list(m.bytes()) != [0xff, 0x70, 3, 120, 60, 255]:
+            out.append(('custom-spec/bytes', 'bytes() = %r' % (list(m.bytes()),)))
+        back = mido.MetaMessage.from_bytes([0xff, 0x70, 3, 120, 60, 255])
+        if type(back) is not mido.MetaMessage or back != m.copy(time=0):
+            out.append(('custom-spec/from_bytes', 'from_bytes gave %s' % core.srepr(back)))
+        mid = mido.MidiFile()
+        mid.tracks.append(mido.MidiTrack([m, mido.Message('note_on', time=1), m.copy(r=1, time=0)]))
+        data = smf.save_bytes(mid)
+        body = b'\x03\xff\x70\x80\x03\x78\x3c\xff\x01\x90\x00\x40\x00\xff\x70\x03\x01\x3c\xff\x00\xff\x2f\x00'
+        for label, d in (('saved', data),
+                         ('padded', data[:14] + b'MTrk' + len(body).to_bytes(4, 'big') + body)):
+            for kw in ({}, {'clip': True}):
+                t = smf.load_bytes(d, **kw).tracks[0]
+                exp = [m, mido.Message('note_on', time=1), m.copy(r=1, time=0), mido.MetaMessage('end_of_track')]
+                if not smf.tracks_equal([t], [exp]):
+                    out.append(('custom-spec/track-read/' + label, 'track loaded as %s' % core.srepr(list(t))))
+        for bad in (300, -1, 1.5):
+            try:
+                m.copy(r=bad)
+                out.append(('custom-spec/check-not-called', 'copy(r=%r) accepted' % (bad,)))
+            except (ValueError, TypeError):
+                pass
+        unk = mido.MetaMessage.from_bytes([0xff, 0x71, 1, 5])
+        if type(unk).__name__ != 'UnknownMetaMessage':
+            out.append(('custom-spec/unregistered', 'type byte 0x71 decoded as %s' % core.srepr(unk)))
+    except Exception as e:
+        out.append(('custom-spec/raises/%s' % type(e).__name__, repr(e)))
+    return out[:3]
 
 
 def run(ctx):
@@ -418,3 +479,9 @@ CHECK_DEADLOCK FALSE
         'sequencer_specific data is constructed as a tuple (decoding returns a tuple; a list would compare unequal)',
         'values of the wrong type are driver-level constants, the specification only states that they are outside every domain',
     ]
+    for key, msg in check_custom_spec():
+        ctx.violation('meta/' + key, {'kind': 'custom_spec'}, msg)
+    ctx.replayed += 1
+    # re-entrancy: two threads inside these functions at once, a switch possible before every statement
+    from .. import conc
+    conc.run_scenarios(ctx, 'C09', 2 if ctx.tier == 'thorough' else 1)
